@@ -110,38 +110,43 @@ def run_types(ctx, rp):
     if rp is None:
         inv = ["TypeOK", "C02_OneTypePerField", "C02_ConflictRejectedOnlyThatPoint", "C02_PartialWriteReported"]
         c = {"Fields": ['"f"', '"g"'], "Types": ['"float"', '"integer"'], "Series": ['"s1"'], "MaxBatch": 2,
-             "MaxWrites": 2, "MaxT": 0, "MaxV": 0, "MaxDrops": 1, "MaxReopens": 1}
+             "MaxWrites": 2, "MaxT": 0, "MaxV": 0, "MaxDrops": 1, "MaxReopens": 1, "IndexPersistent": True}
         skip = bool(os.environ.get("VERIF_SKIP_MC"))
         if not skip:
             ctx.write_cfg(sd, "MC1.cfg", "Spec", c, inv, "Bounded")
             ctx.tlc_check(sd, "FieldTypes", "MC1.cfg", workers=8, timeout=1200, coverage=not ctx.quick())
-            c2 = dict(c, Series=['"s1"', '"s2"'], MaxBatch=1, MaxWrites=2, MaxDrops=2)
+            c2 = dict(c, Series=['"s1"', '"s2"'], MaxBatch=1, MaxWrites=2, MaxDrops=2, IndexPersistent=False)
             ctx.write_cfg(sd, "MC2.cfg", "Spec", c2, inv, "Bounded")
             ctx.tlc_check(sd, "FieldTypes", "MC2.cfg", workers=8, timeout=1200)
         if not ctx.quick() and not skip:
-            c3 = dict(c, Series=['"s1"', '"s2"'], Types=['"float"', '"integer"', '"string"'], MaxBatch=2, MaxWrites=2, MaxDrops=1)
+            c3 = dict(c, Series=['"s1"', '"s2"'], MaxBatch=2, MaxWrites=2, MaxDrops=1)   # ~1e6 states generated
             ctx.write_cfg(sd, "MC3.cfg", "Spec", c3, inv, "Bounded")
             ctx.tlc_check(sd, "FieldTypes", "MC3.cfg", workers=8, timeout=2400)
         gl = ctx.pick(7, 9)
         gc = {"Fields": ['"f"', '"g"'], "Types": ['"float"', '"integer"', '"unsigned"', '"string"', '"boolean"'], "Series": ['"s1"', '"s2"'],
-              "MaxBatch": 4, "MaxWrites": 99, "MaxT": 2, "MaxV": 1, "MaxDrops": 99, "MaxReopens": 99, "GenLen": gl, "IntraBatch": False}
+              "MaxBatch": 4, "MaxWrites": 99, "MaxT": 2, "MaxV": 1, "MaxDrops": 99, "MaxReopens": 99, "GenLen": gl, "IntraBatch": False,
+              "IndexPersistent": False}
         num = ctx.pick(160, 2000)
         # strict batches: points agree about the type of a field that does not exist yet (the conflicts are
-        # with types the fields already have); intra batches: they may disagree (first point wins)
-        ctx.write_cfg(sd, "GenS.cfg", "GSpec", gc, extra="INVARIANT Emit")
-        behs = ctx.tlc_generate(sd, "FieldTypesGen", "GenS.cfg", num=num, depth=gl + 1, timeout=900)[:num]
-        ctx.write_cfg(sd, "GenI.cfg", "GSpec", dict(gc, IntraBatch=True), extra="INVARIANT Emit")
-        behs += ctx.tlc_generate(sd, "FieldTypesGen", "GenI.cfg", num=num // 3, depth=gl + 1, seed=ctx.seed + 500, timeout=900)[:num // 3]
-        inp = {"behaviours": behs}
+        # with types the fields already have); intra batches: they may disagree (first point wins).
+        # The index type is part of the model (what a reopen does to a series without data).
+        behs, indexes = [], []
+        for name, intra, persistent, n, sd_off in (("GenS", False, False, num // 2, 0), ("GenT", False, True, num // 2, 300),
+                                                   ("GenI", True, False, num // 6, 500), ("GenJ", True, True, num // 6, 700)):
+            ctx.write_cfg(sd, name + ".cfg", "GSpec", dict(gc, IntraBatch=intra, IndexPersistent=persistent), extra="INVARIANT Emit")
+            b = ctx.tlc_generate(sd, "FieldTypesGen", name + ".cfg", num=n, depth=gl + 1, seed=ctx.seed + sd_off, timeout=900)[:n]
+            behs += b
+            indexes += ["tsi1" if persistent else "inmem"] * len(b)
+        inp = {"behaviours": behs, "indexes": indexes}
     else:
-        inp = {"behaviours": [rp["behaviour"]], "index": rp.get("index", "")}
+        inp = {"behaviours": [rp["behaviour"]], "indexes": [rp.get("index", "inmem")]}
 
     def run_t(inp, label):
         p = ctx.write_json("behT-%s.json" % label, inp)
         return ctx.go_test(PKG_T, FILES_T, "^TestVerifReadTypes$", env={"VERIF_IN": p}, timeout=1200, label=label)
 
     def confirm(r):
-        recs, out, rc = run_t({"behaviours": [r["behaviour"]], "index": r.get("index", "")}, "confirm-types")
+        recs, out, rc = run_t({"behaviours": [r["behaviour"]], "indexes": [r.get("index", "inmem")]}, "confirm-types")
         return any(x.get("k") == "mismatch" for x in recs)
 
     recs, out, rc = run_t(inp, "types")
